@@ -123,7 +123,7 @@ static long g_ytr_lo = -1, g_ytr_hi = -1, g_bt_ord = -1;
 void* sim_last_addr;
 void sim_yield(int site) {
   if (!g_active || g_alive < 2 || !tls_registered) return;
-  if (g_cur != tls_self) { char b[96]; int n = snprintf(b, sizeof b, "cellosim: thread %d yields at site %d while thread %d holds the baton\n", tls_self, site, g_cur); (void)!write(2, b, (size_t)n); _exit(2); }
+  if (g_cur != tls_self) { char b[96]; int n = snprintf(b, sizeof b, "cellosim: thread %d yields at site %d while thread %d holds the baton\n", tls_self, site, g_cur); (void)!write(2, b, (size_t)n); _exit(12); }   /* reported as a crash of the code under test (control flow diverted into another thread), and gated like one */
   g_yields++;
   uint32_t ord = g_ord++;
   if ((long)ord == g_bt_ord) { void* bt[16]; int n = backtrace(bt, 16); backtrace_symbols_fd(bt, n, 2); }
